@@ -129,7 +129,9 @@ def domains(scratch=None):
         LIST: [[], [1], [1, 2], [2, 1], [1, 1], (1, 2), (1, 2, 2), [2, 1, 1]],
         DICT: [{}, {"x": 1}, {"x": 1, "y": 2}, {"y": 1}, {"x": 2}, {"x": 1, "y": 0}, {"z": None}, {"x": 0}, {1: 0, "y": 0, "x": 1},
                # dict subclasses that answer for missing keys (__missing__)
-               collections.Counter({"x": 1}), collections.defaultdict(int, {"x": 2})],
+               collections.Counter({"x": 1}), collections.defaultdict(int, {"x": 2}),
+               # keys of ONE type that still do not order among themselves
+               {(1, "a"): 0, (1, 2): 0, "x": 1}],
         OBJ: [Obj(a=1, b=2), Obj(a=1, b=1), Obj(a=0, b=2)],
         EXC: [_exc_info(ValueError("a")), _exc_info(KeyError("b")), _exc_info(KeyboardInterrupt())],
         CALL: [_ret1, _raise_value, _raise_key, _warn_dep, _warn_two, _warn_twice_same_line, _raise_kbi, _raise_abort],
